@@ -12,7 +12,7 @@ def gen_cases(tier, seed):
     cases = []
 
     def subset():
-        k = rnd.choice([1, 1, 2, 2, 3, 6])
+        k = rnd.choice([0, 1, 1, 1, 2, 2, 2, 3, 6])      # the empty set is a legal argument of every call
         return ",".join(sorted(rnd.sample(NAMES, k), key=NAMES.index))
 
     n = 1500 if tier == "quick" else 30000
@@ -36,7 +36,7 @@ def gen_cases(tier, seed):
                 ops.append("new " + subset())
         cases.append(";".join(ops))
     # every short sequence over a 2-signal universe around set_signals (the repaired window)
-    small = ["raise usr1", "raise usr2", "set usr1", "set usr2", "set usr1,usr2", "disp", "rem usr1", "add usr2"]
+    small = ["raise usr1", "raise usr2", "set usr1", "set usr2", "set usr1,usr2", "set", "add", "rem", "disp", "rem usr1", "add usr2"]
     for n in (2, 3):
         for seq in itertools.product(small, repeat=n):
             cases.append("new usr1;" + ";".join(seq))
@@ -152,7 +152,7 @@ def main(tier, seed):
 
 def replay(path):
     import subprocess
-    cases = [l.strip() for l in open(path) if l.startswith("new ")]
+    cases = [l.strip() for l in open(path) if l.startswith("new")]
     vlib.build_harness()
     vlib.build_model()
     p = subprocess.run([vlib.HARNESS, "signals"], input="\n".join(cases) + "\n", stdout=subprocess.PIPE, text=True)
